@@ -84,6 +84,7 @@ func checkC04(ctx *Ctx, r *Report, tier string) {
 	checkSegmentRecord(ctx, r)
 	checkClosingEdge(ctx, r)
 	checkOwnershipWithinSnap(ctx, r)
+	checkSquaredDistanceIsASumOfSquares(ctx, r)
 }
 
 var windingConvention = true // lower endpoint closed (set by W1 on the real function)
@@ -1239,4 +1240,59 @@ func checkOwnershipWithinSnap(ctx *Ctx, r *Report) {
 	}
 	r.check("W15", "Box2.lineIntersect|edge-ownership-uses-the-snapping-tolerance", fn.Pos(), bad == "", fmt.Sprintf("%d placements of an axis-parallel segment around the top/right edge (tolerance %g);%s", n, tol, bad))
 	r.floor("W15", 1)
+}
+
+// checkSquaredDistanceIsASumOfSquares (W16, float-faithful): the squared distance to a segment is
+// returned as a sum of squares on every branch (a squared length, or the square of the normal
+// component). Pythagoras the other way round - |pa|² − t² - is the same number in exact
+// arithmetic and cancels in floating point: close to a long edge, far from its start vertex, it
+// comes out wrong or negative (NaN after the square root), and the fast and the brute-force
+// path, which share this kernel, return a distance that is not the distance to the nearest edge.
+func checkSquaredDistanceIsASumOfSquares(ctx *Ctx, r *Report) {
+	fn := ctx.ssaFunc("sdf", "(*lineInfo).minDistance2")
+	if fn == nil {
+		r.undecided("W16", "lineInfo.minDistance2", 0, "not found")
+		return
+	}
+	ev := newEval(ctx)
+	ev.faithful = true
+	res, _ := ev.evalRoot(fn)
+	t, _ := res.(*Term)
+	if t == nil || ev.Exceeded {
+		r.undecided("W16", "lineInfo.minDistance2", fn.Pos(), "the result is not a scalar closed form")
+		return
+	}
+	var sumOfSquares func(x *Term) bool
+	sumOfSquares = func(x *Term) bool {
+		switch {
+		case x.Op == "ite":
+			return sumOfSquares(x.Args[1]) && sumOfSquares(x.Args[2])
+		case x.Op == "f+":
+			return sumOfSquares(x.Args[0]) && sumOfSquares(x.Args[1])
+		case x.Op == "f*" && len(x.Args) == 2:
+			return x.Args[0].Key() == x.Args[1].Key()
+		case x.Op == "c":
+			return x.C.Sign() >= 0
+		case x.Op == "call" && (x.S == "math.Min" || x.S == "math.Max") && len(x.Args) == 2:
+			return sumOfSquares(x.Args[0]) && sumOfSquares(x.Args[1])
+		}
+		return false
+	}
+	bad := ""
+	n := 0
+	var leaves func(x *Term)
+	leaves = func(x *Term) {
+		if x.Op == "ite" {
+			leaves(x.Args[1])
+			leaves(x.Args[2])
+			return
+		}
+		n++
+		if !sumOfSquares(x) && len(bad) < 300 {
+			bad += " a branch returns " + shortKey(x.Key(), 140) + ";"
+		}
+	}
+	leaves(t)
+	r.check("W16", "lineInfo.minDistance2|every-branch-returns-a-sum-of-squares", fn.Pos(), bad == "" && n >= 2, fmt.Sprintf("%d branches, each x·x + y·y or d·d (never a difference of squares);%s", n, bad))
+	r.floor("W16", 1)
 }
